@@ -143,7 +143,7 @@ def gen_hist(rng, tree, nops, gen_op, p_leaf=0.2):
 def gen_case_exact(rng):
     uniform = rng.random() < 0.7
     tree = gen_tree_exact(rng, rng.randint(1, 3), rng.randint(1, 4), uniform)
-    return {"tree": tree, "hist": gen_hist(rng, tree, rng.randint(1, 6), P9.gen_op)}
+    return {"tree": tree, "hist": gen_hist(rng, tree, rng.randint(1, 6), P9.gen_op), "uniform": uniform}
 
 
 def structured_cases():
@@ -342,7 +342,8 @@ def check_history(tree, hist, rots, with_field=False, stats=None):
                 dp1, dq1 = after[j]
                 if len(dp1) != len(cp1) or len(dq1) != len(cp1):
                     return {"step": si, "clause": "lengths",
-                            "what": f"member path length {len(dp1)} != collection path length {len(cp1)}",
+                            "what": f"member path lengths {len(dp1)}/{len(dq1)} (position/orientation) != "
+                                    f"collection path length {len(cp1)}",
                             "c": paths[ci], "d": paths[j]}
                 rp0, rq0 = rel_pose(cp0, cq0, dp0, dq0)
                 rp1, rq1 = rel_pose(cp1, cq1, dp1, dq1)
@@ -500,15 +501,58 @@ def gen_float_case(rng, nops):
     return {"tree": tree, "hist": gen_hist(rng, tree, nops, gen_float_op, p_leaf=0.15)}
 
 
+def simpler_ops(op):
+    """candidate simplifications of one operation (used to canonicalise a counterexample)"""
+    out = []
+    if op.get("form"):
+        out.append({k: v for k, v in op.items() if k not in ("form", "angax")})
+    if op["op"] in ("move", "rotate"):
+        if op["start"] != "auto":
+            out.append(dict(op, start="auto"))
+        if op["start"] not in ("auto", 0):
+            out.append(dict(op, start=0))
+        key = "d" if op["op"] == "move" else "r"
+        x = op[key]
+        if isinstance(x, (list, tuple)) and isinstance(x[0], (list, tuple)) and not op.get("form"):
+            out.append(dict(op, **{key: x[0]}))
+        elif isinstance(x, (list, tuple)) and isinstance(x[0], int) and op["op"] == "rotate":
+            out.append(dict(op, r=x[0]))
+        a = op.get("anchor")
+        if isinstance(a, (list, tuple)):
+            out.append(dict(op, anchor=a[0] if isinstance(a[0], (list, tuple)) else None))
+        elif a is not None:
+            out.append(dict(op, anchor=None))
+    if op["op"] == "setpos" and isinstance(op["p"][0], (list, tuple)):
+        out.append(dict(op, p=op["p"][0]))
+    if op["op"] == "setori" and op["r"] is not None:
+        r = op["r"]
+        if isinstance(r, (list, tuple)) and isinstance(r[0], (list, tuple, int)):
+            out.append(dict(op, r=r[0]))
+        else:
+            out.append(dict(op, r=None))
+    return out
+
+
 def report(ctx, case, res, rots, kind, with_field):
-    def fails(h):
+    def run(h):
         try:
-            return check_history(case["tree"], h, rots, with_field) is not None
+            return check_history(case["tree"], h, rots, with_field)
         except Exception:   # pylint: disable=broad-except
-            return False
-    hist = shrink_list(case["hist"], fails, max_steps=60)
-    res2 = check_history(case["tree"], hist, rots, with_field) or res
+            return None
+    hist = shrink_list(case["hist"], lambda h: run(h) is not None, max_steps=60)
+    res2 = run(hist) or res
     hist = hist[:res2["step"] + 1]
+    # canonicalise the failing operation: simplest form / start / input / anchor that still fails alike
+    for _ in range(8):
+        last = hist[-1]
+        for cand in simpler_ops(last["op"]):
+            h2 = hist[:-1] + [dict(last, op=cand)]
+            r2 = run(h2)
+            if r2 is not None and r2["step"] == len(h2) - 1 and r2["clause"] == res2["clause"]:
+                hist, res2 = h2, r2
+                break
+        else:
+            break
     ctx.impl_fail(signature(case["tree"], hist, res2), res2["what"],
                   {"kind": kind, "tree": case["tree"], "hist": hist, "with_field": with_field})
 
@@ -568,12 +612,17 @@ def run(ctx):
             try:
                 st = impl_run(c)
             except Exception as e:   # pylint: disable=broad-except
-                ctx.impl_fail("raises/" + c["hist"][-1]["op"]["op"],
-                              f"valid tree history raised {type(e).__name__}: {e}",
-                              {"kind": "exact-tree-history", "tree": c["tree"], "hist": c["hist"], "with_field": False})
+                if c.get("uniform", True):
+                    # the property's own oracle shrinks and reports it (clause `raises`)
+                    res = check_history(c["tree"], c["hist"], octa.rot)
+                    if res is not None:
+                        report(ctx, c, res, octa.rot, "exact-tree-history", False)
+                        continue
+                ctx.add_broken("broken-correspondence", "implementation raised where the model does not",
+                               f"{type(e).__name__}: {e} on " + json.dumps({"tree": c["tree"], "hist": c["hist"]}))
                 continue
             cs.append((c, st))
-            ctx.case(json.dumps(c, sort_keys=True), len(c["hist"]) > 0)
+            ctx.case(json.dumps({"tree": c["tree"], "hist": c["hist"]}, sort_keys=True), len(c["hist"]) > 0)
             for s in c["hist"]:
                 ctx.bump("exact-op:" + s["op"]["op"])
                 ctx.bump("exact-target:" + ("root" if not s["at"] else "depth%d" % len(s["at"])))
